@@ -6,7 +6,7 @@ export GOFLAGS=-mod=mod GOPROXY=off
 cd $wt || exit 9
 git checkout -q -- . ; 
 cpline=$(grep -E "^\s*cp SEED/demo$n/" SEED/demo$n/RUN.txt | head -1 | sed 's/^\s*//')
-runline=$(grep -E "go test" SEED/demo$n/RUN.txt | head -1 | sed 's/^\s*//')
+runline=$(grep -E "^\s*(GOFLAGS=[^ ]+ )?(GOPROXY=[^ ]+ )?go test" SEED/demo$n/RUN.txt | head -1 | sed "s/^\s*//")
 dest=$(echo "$cpline" | awk '{print $3}')
 src=$(echo "$cpline" | awk '{print $2}')
 case "$dest" in */) dest="$dest$(basename $src)";; esac
